@@ -14,7 +14,8 @@ pub struct IndexController;
 
 impl Controller for IndexController {
     fn is_matching(request: &Request, _connection: &ConnectionInfo) -> bool {
-        request.request_uri == SYMBOL.slash
+        // query and fragment are not part of the path
+        request.get_uri_path().unwrap_or(request.request_uri.to_string()) == SYMBOL.slash
     }
 
     fn process(_request: &Request, mut response: Response, _connection: &ConnectionInfo) -> Response {
